@@ -16,6 +16,7 @@ import (
 	"crypto/x509"
 	"encoding/base64"
 	"encoding/json"
+	"encoding/pem"
 	"errors"
 	"fmt"
 	"os"
@@ -287,6 +288,8 @@ func main() {
 			string(orig) + "trailing", string(orig) + string(orig), "garbage" + string(orig), string(orig) + "\n",
 			fmt.Sprintf(`{"baseCRL":%q}`, b64(b.Raw[:len(b.Raw)-3])),
 			fmt.Sprintf(`{"baseCRL":%q}`, b64(append(append([]byte(nil), b.Raw...), 0, 0))),
+			// a bare CRL (DER, DER followed by junk, PEM) where the entry should be: a CRL file is not a cache entry
+			string(b.Raw), string(b.Raw) + "junk", string(pem.EncodeToMemory(&pem.Block{Type: "X509 CRL", Bytes: b.Raw})), b64(b.Raw),
 		}
 		for _, s := range structural {
 			variants = append(variants, []byte(s))
@@ -313,6 +316,7 @@ func main() {
 	expiredUnderContention(r)
 	failedStoreKeepsPrevious(r)
 	justExpired(r)
+	distinctURLsAtOnce(r)
 	r.RequireAtLeast("get-expect-hit", 1000)
 	r.RequireAtLeast("get-expect-miss-expired", 1000)
 	r.RequireAtLeast("get-expect-miss-never-stored", 1000)
@@ -544,6 +548,58 @@ func expiredUnderContention(r *lib.Run) {
 	}, r.PanicViolation("expired entry under contention"))
 }
 
+// distinctURLsAtOnce: goroutines that share ONE cache value, each the only writer and reader of its own URL. Whatever the
+// others do, a URL's reads yield what was last stored under it (state shared between calls shows as another URL's bundle,
+// a miss, or a crash).
+func distinctURLsAtOnce(r *lib.Run) {
+	ctx := context.Background()
+	base := lib.TempDir("c15many")
+	defer os.RemoveAll(base)
+	c, err := crl.NewFileCache(base)
+	if err != nil {
+		panic(err)
+	}
+	far := time.Now().Add(10 * 365 * 24 * time.Hour)
+	const G = 8
+	rounds := r.N(250, 3000)
+	bundles := make([][2]*corecrl.Bundle, G)
+	for g := range bundles {
+		bundles[g] = [2]*corecrl.Bundle{{BaseCRL: lib.MintCRL(int64(930000+2*g), far, 300)}, {BaseCRL: lib.MintCRL(int64(930001+2*g), far, 500)}}
+	}
+	var wg sync.WaitGroup
+	for g := 0; g < G; g++ {
+		wg.Add(1)
+		go func(g int) {
+			defer wg.Done()
+			defer func() {
+				if p := recover(); p != nil {
+					r.Violation(map[string]string{"kind": "panic", "phase": "distinct-urls-at-once"}, fmt.Sprintf("goroutine %d: the cache panicked: %v", g, p), nil)
+				}
+			}()
+			u := fmt.Sprintf("http://many.example/%d/own.crl", g)
+			for k := 0; k < rounds; k++ {
+				b := bundles[g][k%2]
+				if err := c.Set(ctx, u, b); err != nil {
+					r.Violation(map[string]string{"kind": "set-failed", "phase": "distinct-urls-at-once"}, fmt.Sprintf("goroutine %d round %d: Set failed: %v", g, k, err), nil)
+					return
+				}
+				got, err := c.Get(ctx, u)
+				r.Event("own-url-round-trips-beside-other-urls")
+				if err != nil || got == nil || !bytes.Equal(got.BaseCRL.Raw, b.BaseCRL.Raw) {
+					n := int64(-1)
+					if got != nil && got.BaseCRL != nil && got.BaseCRL.Number != nil {
+						n = got.BaseCRL.Number.Int64()
+					}
+					r.Violation(map[string]string{"kind": "expected-bundle", "phase": "distinct-urls-at-once"}, fmt.Sprintf("goroutine %d (only user of %s) stored CRL %d and read back CRL %d (err=%v) while %d other goroutines used their own URLs on the same cache value", g, u, b.BaseCRL.Number, n, err, G-1), nil)
+					return
+				}
+			}
+		}(g)
+	}
+	wg.Wait()
+	r.Eval("distinct-urls-at-once")
+}
+
 // justExpired: entries whose next-update instant T (a whole second, as X.509 times are) lies two seconds ahead are stored,
 // read once before T (fresh: returned) and once shortly AFTER T (the process sleeps until T + 120 ms by its own clock - the
 // clock the library reads): "afterwards the result is a cache miss" has no grace period, not even the rest of that second.
@@ -570,6 +626,27 @@ func justExpired(r *lib.Run) {
 		}
 		if got, err := c.Get(ctx, u); time.Now().Before(T) && (err != nil || got == nil) {
 			r.Violation(map[string]string{"kind": "fresh-entry-not-returned"}, fmt.Sprintf("%s: read before the next-update instant returned err=%v", u, err), nil)
+		}
+	}
+	// a CRL that states NO next-update can never be shown to be "not past its next-update": as base or as delta it keeps the
+	// bundle from being returned (however fresh the other CRL is)
+	for u, b := range map[string]*corecrl.Bundle{
+		"http://just.example/delta-without-next-update.crl":     {BaseCRL: lib.MintCRL(920011, far, 2000), DeltaCRL: lib.MintCRL(920012, time.Time{}, 2000)},
+		"http://just.example/base-without-next-update.crl":      {BaseCRL: lib.MintCRL(920013, time.Time{}, 2000), DeltaCRL: lib.MintCRL(920014, far, 2000)},
+		"http://just.example/only-base-without-next-update.crl": {BaseCRL: lib.MintCRL(920015, time.Time{}, 2000)},
+	} {
+		if !b.BaseCRL.NextUpdate.IsZero() && (b.DeltaCRL == nil || !b.DeltaCRL.NextUpdate.IsZero()) {
+			panic("harness bug: the minted CRL states a next-update")
+		}
+		if err := c.Set(ctx, u, b); err != nil {
+			r.Event("set-refuses-a-crl-without-next-update")
+			continue
+		}
+		got, err := c.Get(ctx, u)
+		r.Eval("no-next-update|" + u)
+		r.Event("reads-of-bundles-with-a-crl-that-states-no-next-update")
+		if got != nil || err == nil {
+			r.Violation(map[string]string{"kind": "bundle-without-next-update-returned"}, fmt.Sprintf("%s: Get returned a bundle (err=%v) although one of its CRLs states no next-update", u, err), nil)
 		}
 	}
 	time.Sleep(time.Until(T.Add(120 * time.Millisecond)))
